@@ -77,6 +77,15 @@ func genC05(p *sim.Plan, r *sim.Rand, tier string) {
 		}
 		if r.Bool(0.3) {
 			p.Ops = append(p.Ops, sim.Op{At: r.I64n(40_000_000), Actor: m, Kind: "connect", I: []int64{-1}}) // unknown namespace
+			if r.Bool(0.5) {
+				// the refusal makes the manager look at its sockets (close if none is active) while the
+				// others are connecting: long stalls on the client's manager code
+				p.Stall = DrawStall(r, 300_000_000)
+				p.Stall.Focus = []string{"client_manager.go", "client_socket.go", "client_manager_conn.go"}
+				p.Stall.SitePct = 100
+				p.Stall.RatePPM = []int{50000, 150000, 300000}[r.Intn(3)]
+				p.Stall.MaxNs = []int64{5_000_000, 20_000_000, 50_000_000}[r.Intn(3)]
+			}
 		}
 	}
 	span := int64(r.LogDur(50*time.Millisecond, 2*time.Second))
